@@ -468,6 +468,7 @@ lemma repKeyOrder [C14]: forall p Bytes, a Int, b Int :: 0 <= a && a < b && b < 
 module estimations
 props C20
 use common core
+relies container registry InvRx
 dialect neovm
 
 // C20: container size estimations are accepted only for live containers, from nodes of the PREVIOUS epoch's network
@@ -571,8 +572,8 @@ pure encLen(x Int) Int = x == 0 ? 0 : (x < 128 ? 1 : (x < 32768 ? 2 : (x < 83886
 lemma IterateAllExact [C20] finding F_C20_container_epoch_prefix (encLen(e) != encLen(f)) : forall e Int, f Int, p Bytes :: 0 <= e && e < 4294967296 && 0 <= f && f < 4294967296 && len(p) == 42
         && prefix("cnr" ++ enc(e), "cnr" ++ enc(f) ++ p) ==> e == f
 
+// (the id of a live container has 32 bytes: registry invariant InvRx, relied on)
 func PutContainerSize(epoch, cid, usedSize, pubKey)
-  requires [Pre] len(cid) == 32
   ensures [C20] live(old(store), cid) && W(pubKey)
   // what is returned for (epoch, container, node) is what was put
   ensures [C20] store.has(ekey(epoch, cid, pubKey)) && deser_Estimation(store.get(ekey(epoch, cid, pubKey))) == Estimation{pubKey, usedSize}
